@@ -85,6 +85,7 @@ type UFDecl struct {
 }
 
 type Contracts struct {
+	Addressable []string // "T.f" declarations
 	Ghosts map[string]string // global ghost variables: name -> Go type
 	UFs    map[string]*UFDecl
 	Funcs  map[string]*FuncContract
@@ -96,7 +97,7 @@ type Contracts struct {
 	Text   string
 }
 
-var headerKW = map[string]bool{"ghostvar": true, "uf": true, "func": true, "interface": true, "extern": true, "model": true, "spec": true, "lemma": true, "axiom": true}
+var headerKW = map[string]bool{"addressable": true, "ghostvar": true, "uf": true, "func": true, "interface": true, "extern": true, "model": true, "spec": true, "lemma": true, "axiom": true}
 var clauseKW = map[string]bool{"observe": true, "requires": true, "ensures": true, "modifies": true, "safe": true, "trusted": true, "loop": true, "at": true, "crash_invariant": true, "fresh": true}
 
 type rawItem struct {
@@ -167,6 +168,9 @@ func parseContracts(text string) (c *Contracts, err error) {
 			c.Funcs[fc.Key] = fc
 			c.Order = append(c.Order, fc.Key)
 			cur, curLemma = fc, nil
+		case "addressable":
+			c.Addressable = append(c.Addressable, strings.TrimSpace(rest))
+			cur, curLemma = nil, nil
 		case "ghostvar":
 			n, t := splitFirst(rest)
 			if n == "" || t == "" {
